@@ -1,7 +1,7 @@
 """Role resolution shared by the rules (roles are resolved from structure where cheap, by anchor name otherwise;
 a role that cannot be resolved is an AnalysisError, never a silent pass)."""
 import ast
-from ..model import AnalysisError, call_name, dotted, params_of, src
+from ..model import AnalysisError, call_name, dotted, params_of, src, qualname, loc
 from .. import flow
 
 
@@ -53,3 +53,81 @@ def stmt_of(node):
     while not isinstance(node, ast.stmt):
         node = node._parent
     return node
+
+
+# ---------------------------------------------------------------------------------------------------
+# R-ARGBIND: a value travels to the parameter of its own name
+# ---------------------------------------------------------------------------------------------------
+def _positional_params(fn):
+    a = fn.args
+    names = [x.arg for x in a.posonlyargs + a.args]
+    if getattr(fn, "_cls", None) is not None and names and names[0] in ("self", "cls") and \
+            not any(isinstance(d, ast.Name) and d.id == "staticmethod" for d in fn.decorator_list):
+        names = names[1:]
+    return names, [x.arg for x in a.kwonlyargs]
+
+
+def _origin_of(fn, a, depth=0):
+    """A single-assignment local bound to a plain name / attribute stands for that name (`tol = tol_dimension_reduction`)."""
+    if isinstance(a, ast.Name) and depth < 4:
+        stores = [n for n in ast.walk(fn) if isinstance(n, ast.Name) and isinstance(n.ctx, ast.Store) and n.id == a.id]
+        if len(stores) == 1 and a.id not in params_of(fn):
+            st = stmt_of(stores[0])
+            if isinstance(st, ast.Assign) and len(st.targets) == 1 and st.targets[0] is stores[0] and isinstance(st.value, (ast.Name, ast.Attribute)):
+                return _origin_of(fn, st.value, depth + 1)
+    return a
+
+
+def r_argbind(ctx, callees, rule="R-ARGBIND", why=""):
+    """Every call, anywhere in the package, of one of the named functions: an argument that is a plain name (or `self.<name>` / `<x>.<name>`)
+    spelled like a parameter of the callee is bound to that parameter -- positionally or by keyword -- and not to another one.
+    Decided on the resolved callee's signature; calls with *args are reported as not analysable."""
+    from .. import effects
+    repo = ctx.repo
+    n_sites = 0
+    n_bound = 0
+    for fn in list(repo.all_functions()):
+        if True:
+            for call in [n for n in ast.walk(fn) if isinstance(n, ast.Call)]:
+                nm = call_name(call)
+                if nm not in callees:
+                    continue
+                targets, note = effects.resolve_call(repo, fn, call)
+                targets = [t for t in targets if t.name == nm]
+                if not targets or note == "external":
+                    continue
+                n_sites += 1
+                for t in targets:
+                    pos, kwonly = _positional_params(t)
+                    allp = set(pos) | set(kwonly)
+                    bad = None
+                    if any(isinstance(a, ast.Starred) for a in call.args):
+                        continue
+                    for i, a in enumerate(call.args):
+                        a = _origin_of(fn, a)
+                        an = a.id if isinstance(a, ast.Name) else (a.attr if isinstance(a, ast.Attribute) else None)
+                        if an is None or an not in allp:
+                            continue
+                        bound = pos[i] if i < len(pos) else None
+                        n_bound += 1
+                        if bound != an and bound is not None:
+                            # harmless when the callee's parameter of that name receives the same argument by another route
+                            bad = (an, bound, i)
+                            break
+                    for k in call.keywords:
+                        if k.arg is None:
+                            continue
+                        v = _origin_of(fn, k.value)
+                        vn = v.id if isinstance(v, ast.Name) else (v.attr if isinstance(v, ast.Attribute) else None)
+                        if vn is not None and vn in allp:
+                            n_bound += 1
+                            if vn != k.arg:
+                                bad = (vn, k.arg, "keyword")
+                                break
+                    key = "%s -> %s::%s" % (qualname(fn), qualname(t), " ".join(src(call.func).split()))
+                    ctx.ob(rule, key, bad is None,
+                           "arguments named like a parameter are bound to that parameter" if bad is None else
+                           "`%s` is handed to parameter `%s` of %s (%s), which also has a parameter `%s`: the two values are exchanged%s"
+                           % (bad[0], bad[1], qualname(t), "position %s" % bad[2] if bad[2] != "keyword" else "keyword", bad[0], why), loc(fn, call))
+    ctx.count("call sites with name-matched arguments", n_sites)
+    return n_sites, n_bound
